@@ -173,6 +173,12 @@ func JSON(n *oracle.Node, v gen.V) (bool, string) {
 			return false, fmt.Sprintf("error object %s lacks message %q", n.Brief(), v.Text)
 		}
 		return false, "error rendered as " + n.Kind.String()
+	case v.Kind == "textm":
+		// JSON mode has no special case for a TextMarshaler: the fallback rendering ({{...}}) or the text itself, as a string
+		if n.Kind != oracle.JStr {
+			return false, fmt.Sprintf("TextMarshaler value rendered as %s, want a JSON string", n.Kind)
+		}
+		return true, ""
 	case IsTextual(v.Kind):
 		if n.Kind != oracle.JStr {
 			return false, fmt.Sprintf("%s rendered as %s, want a JSON string", v.Kind, n.Kind)
@@ -297,7 +303,7 @@ func Text(p oracle.Pair, v gen.V, colored bool) (bool, string) {
 			return true, ""
 		}
 		return false, fmt.Sprintf("nil rendered as %q", p.Raw)
-	case IsTextual(v.Kind) || IsFallback(v.Kind):
+	case IsTextual(v.Kind) || IsFallback(v.Kind) || v.Kind == "textm":
 		if !p.Quoted {
 			return false, fmt.Sprintf("string-like value (%s) is not quoted: %s", v.Kind, clip(p.Raw))
 		}
